@@ -256,6 +256,44 @@ def g_js_build(rng, parse_too=False):
     return ops + ["js free"]
 
 
+_ATTACH_STATE = {"n": 0, "r0": None}
+
+
+def g_js_attach(rng):
+    """attaching a ready-made value with json_dict_put / json_list_append, and RE-USING the value
+    after a failed attach.  json_dict_put makes two pool allocations (key string, tree node; a
+    third, the value, in the json_dict_put_* wrappers); which of them needs a new pool segment —
+    the only moment the parent allocator is asked and a fault can land — depends on how full the
+    first 1024-byte segment is.  Every round starts a fresh context, fills it with a filler string
+    of length L and then attaches; L is swept so that over consecutive scripts every multiple of
+    4 in 0..1100 occurs (script i covers L = base_i + 92 j), i.e. the segment boundary falls on
+    each allocation of the operation in turn.  After the attach the same value is attached again
+    to the same container and to another one (in alternating order): after a FAILED attach the
+    retry must succeed exactly as in the fault-free run without the failed call."""
+    st = _ATTACH_STATE
+    if st["r0"] is None:
+        st["r0"] = rng.below(23)
+    base = ((st["n"] + st["r0"]) % 23) * 4
+    st["n"] += 1
+    ops = []
+    rnd = 0
+    for L in range(base, 1100, 92):
+        rnd += 1
+        k2 = H(b"second")
+        ops += ["js new 0", "js dict 1", "js dput 1 %s int 1" % H(b"first"),
+                "js parse 9 %s" % H(json.dumps("f" * L).encode()),
+                "js list 2", "js lapp 2 int 5", "js dict 3", "js list 4"]
+        attach = "js dputv 1 %s 2" % k2
+        other = rng.choice(["js dputv 3 %s 2" % H(b"x"), "js lappv 4 2"])
+        ops.append(attach)
+        ops += [attach, other] if rnd % 2 else [other, attach]
+        # the wrapper: value, key string, tree node
+        ops += ["js dput 1 %s str %s" % (H(b"third"), H(b"v" * rng.choice([1, 8, 30]))),
+                "js dput 1 %s int 3" % H(b"third"),
+                "js render 1", "js render 3", "js render 4", "js free"]
+    return ops
+
+
 def g_js_index(rng):
     """indexed access to lists: json_list_get_value builds an index array lazily (one allocation
     from the context pool, only for lists of more than 10 elements, again after every append).
@@ -695,6 +733,7 @@ FAMILIES = {
     "js-parse": (g_js_parse, "h", {"prefix": "js ", "strict_live": False, "live_exact": False}),
     "js-build": (lambda r: g_js_build(r), "h", {"prefix": "js ", "strict_live": False, "live_exact": False}),
     "js-mixed": (lambda r: g_js_build(r, True), "h", {"prefix": "js ", "strict_live": False, "live_exact": False}),
+    "js-attach": (g_js_attach, "h", {"prefix": "js ", "strict_live": False, "live_exact": False}),
     "js-index": (g_js_index, "h", {"prefix": "js ", "strict_live": False, "live_exact": False}),
     "ta-limit": (g_ta_limit, "h", {"prefix": "ta ", "strict_live": True, "live_exact": True}),
     "ta-tree": (lambda r: g_ta(r, "tree"), "h", {"prefix": "ta ", "strict_live": True, "live_exact": True}),
